@@ -1,0 +1,7 @@
+//go:build !verif
+
+package evaluator
+
+import "github.com/woodsbury/jmespath/internal/parser"
+
+func step(parser.Node) {}
